@@ -14,7 +14,7 @@ OBLIGATIONS = [NS + t for t in [
     "keptRows_eq_filter", "removeIf_eq_filter", "removeIf_eq_gather",
     "index_lex_mono", "lexLt_iff_lt", "reshape_infer_one", "reshape_explicit", "reshape_rejects", "reshape_get",
     "slice_in_bounds", "gather_wf",
-    "stack_block_get",
+    "stack_block_get", "stackVec_get",
     "integralData_spec", "integral_eq_prefix_sums", "integral_rank1", "integral_rank2",
 ]]
 TRUSTED = [
